@@ -975,6 +975,15 @@ func (c *Client) backwards(
 		verifiedHeader = interimHeader
 	}
 
+	// The chain of hashes was followed down to the target height with headers
+	// requested anew from the primary. The header that ends this chain must be
+	// the header the caller is about to store as trusted.
+	if !bytes.Equal(verifiedHeader.Hash(), newHeader.Hash()) {
+		return ErrInvalidHeader{
+			fmt.Errorf("header %X at height %d is not the one linked to the trusted header (%X)",
+				newHeader.Hash(), newHeader.Height, verifiedHeader.Hash())}
+	}
+
 	return nil
 }
 
